@@ -73,11 +73,11 @@ func init() {
 		})
 		// (ii) string literal contents
 		allStrings([]string{"<", "%", ">", "\\", "#", "a", "\n", "{", "é"}, L, func(body string) {
-			if strings.HasSuffix(body, "\\") {
-				return // a string cannot end in a backslash (it would escape the closing quote)
-			}
 			dq := strings.ReplaceAll(body, `"`, `\"`)
 			for _, form := range []struct{ open, src, close string }{{`"`, dq, `"`}, {"`", body, "`"}} {
+				if form.open == `"` && strings.HasSuffix(body, "\\") {
+					continue // a double-quoted string cannot end in a backslash (it would escape the closing quote); a back-quoted one can: it is raw
+				}
 				tmpl := "[<%= " + form.open + form.src + form.close + " %>]"
 				c := RCase{Tmpl: tmpl}
 				o := e.addRenderCase("strlit", c)
